@@ -140,6 +140,8 @@ class Ref:
 
     def tree_peek(self):
         ks = sorted(self.d)
+        if getattr(self, 'pending', None) is not None:      # the cursor a nearest-key search handed out: the walk continues WITH that key
+            return self.pending if self.pending in self.d else None
         if self.cur is None:
             return ks[0] if ks else None
         later = [k for k in ks if k > self.cur]
@@ -280,6 +282,8 @@ class Ref:
                 return 'sreverse'
         if t == 'vec':
             n = len(self.l)
+            if op == 'addself':                      # addat(i, getat(j, false)): same allocations as addat(i, <bytes of element j>)
+                return 'none' if self.norm_get(a[1], n) is None else self.model_op('addat', [a[0], self.l[self.norm_get(a[1], n)]], rec)
             if op in ('addat', 'addlast', 'addfirst'):
                 idx = a[0] if op == 'addat' else (n if op == 'addlast' else 0)
                 if idx < 0:
@@ -326,6 +330,8 @@ class Ref:
 
     def apply(self, op, a):
         r = self.apply1(op, a)
+        if op == 'near':
+            self.ended = False                     # a nearest-key search hands out a fresh cursor
         if op == 'next' and r == 'false':
             self.ended = True
         return r
@@ -346,6 +352,7 @@ class Ref:
             return self.apply1('add', [ftext(a[0])])
         if op == 'first':
             self.cur = None
+            self.pending = None
             self.ended = False
             return 'ok'
         if op == 'next' and getattr(self, 'ended', False):
@@ -380,12 +387,8 @@ class Ref:
                     return 'NULL'
                 return hx(min(self.d) if op == 'min' else max(self.d))
             if op == 'next':
-                ks = sorted(self.d)
-                if self.cur is None:
-                    nxt = ks[0] if ks else None
-                else:
-                    later = [k for k in ks if k > self.cur]
-                    nxt = later[0] if later else None
+                nxt = self.tree_peek()
+                self.pending = None
                 if nxt is None:
                     self.cur = None
                     return 'false'
@@ -398,6 +401,7 @@ class Ref:
                 le = [k for k in ks if k <= a[0]]
                 k = le[-1] if le else ks[0]
                 self.cur = k
+                self.pending = k
                 return hx(k) + '=' + hx(self.d[k])
         if t == 'hash':
             if op == 'put':
@@ -514,6 +518,9 @@ class Ref:
                 return str(old)
         if t == 'vec':
             n = len(self.l)
+            if op == 'addself':
+                j = self.norm_get(a[1], n)
+                return 'noself' if j is None else self.apply1('addat', [a[0], self.l[j]])
             if op in ('addat', 'addlast', 'addfirst'):
                 idx, v = (a[0], a[1]) if op == 'addat' else ((n, a[0]) if op == 'addlast' else (0, a[0]))
                 if idx < 0:
@@ -624,6 +631,8 @@ def decode_args(typ, op, words):
         return [b(words[0]), b(words[1]) if len(words) > 1 else b'']
     if op == 'putself':
         return [b(words[0]), [int(x) for x in words[1].split(':')]]
+    if op == 'addself':
+        return [int(words[0]), int(words[1])]
     if op == 'putstrf':
         return [b(words[0]), int(words[1])]
     if op == 'addstrf':
@@ -713,6 +722,10 @@ def gen_tree(rng, quick):
         if len(ks) >= 3:
             H.append(Hist('tree', [opt], pre + ['first', 'next', 'next'], 'next', ['next', 'next'] + tail, 'tree/%s/midwalk' % name))
         H.append(Hist('tree', [opt], pre + ['first'], 'next', ['next', 'next', 'next'] + tail, 'tree/%s/retry' % name))
+        if 0 < len(ks) <= 7:                         # complete walk, a removal (of each key in turn: some change the root), complete walk again
+            wk = ['first'] + ['next'] * (len(ks) + 1)
+            for k in ks:
+                H.append(Hist('tree', [opt], pre + wk, 'remove %s' % k, wk + ['near %s' % ks[0], 'next', 'next'] + tail, 'tree/%s/walk-remove-walk' % name))
         if name in ('empty', '3mid', '20rnd'):
             for L in FLENS:
                 H.append(Hist('tree', [opt], pre, 'putstrf 6b41 %d' % L, ['get 6b4100'] + tail, 'tree/%s/putstrf-new' % name))
@@ -832,6 +845,8 @@ def gen_vec(rng, quick):
                           'resize %d' % max(n, 1)]
                     for i in idxs:
                         tg += ['addat %d %s' % (i, hexs(val(32, osz))), 'getat %d' % i, 'popat %d' % i]
+                    if n:                            # the new element is one of the vector's own (pointer from getat(j, false))
+                        tg += ['addself 0 -1', 'addself -1 0', 'addself %d %d' % (n, n // 2)]
                     for t in tg:
                         H.append(Hist('vec', [mx, osz, opt], pre, t, tail, 'vec/o%d/s%d/m%d/n%d' % (opt, osz, mx, n)))
                     H.append(Hist('vec', [mx, osz, opt], pre + ['first'], 'next', ['next', 'next', 'next'] + tail, 'vec/o%d/s%d/m%d/n%d/retry' % (opt, osz, mx, n)))
@@ -1113,6 +1128,9 @@ def compare_model(h, recs, mlines, asan=False):
             iev, mev = sorted(iev), sorted(mev)
         if h.typ == 'harr':
             icp, mcp = dedup(icp), dedup(mcp)
+        if op == 'addself' and mcp and mcp[-1].endswith('<C'):
+            # the script is the one of addat with a caller buffer; here the new element is read from the vector's own block
+            mcp = mcp[:-1] + [mcp[-1][:-1] + mcp[-1][1:mcp[-1].index('<')]]
         if iev != mev:
             return (i, 'events', ','.join(d['ev']), m.group(2))
         if not asan and icp != mcp:
